@@ -172,3 +172,27 @@ lemma("bounded-reclamation",
                   "tk + delay <= t0 + inactive + maxtime + interval + delay"],
       note="with the contracts above: the removal of an unused entry starts at the first sweep after its limit passed and completes "
            "remove_tunnel_delay later, i.e. within max(inactive, max_time) + interval + remove_tunnel_delay of its last use")
+
+# ---------------------------------------------------------------------------------------------------------------------
+# the liveness clock is only advanced by what ARRIVES: sending (pings included) must not refresh it, or an entry whose far end
+# vanished would never look inactive to the sweep
+def CELL(**extra):
+    f = dict(circuit_id=RANGE(0, 2 ** 32 - 1), message=BYTES, plaintext=BOOL, relay_early=BOOL)
+    f.update(extra)
+    return OBJ(f"{PL}::CellPayload", **f)
+
+
+CEP = OBJ(f"{CR}::PythonCryptoEndpoint", prefix=BYTES_FIXED(22), logger=LOGGER(), endpoint=EFFECT("raw", send={}),
+          settings=OBJ(f"{TC}::TunnelSettings", max_relay_early=INT), max_relay_early=INT,
+          circuits=DICTOBJ(INT, CIRCUIT("[hc1]"), where="v.circuit_id == k"), relays=DICTOBJ(INT, RELAY(), where="True"),
+          exit_sockets=DICTOBJ(INT, ROUTING(f"{ES}::TunnelExitSocket", hop=HOP()), where="v.circuit_id == k"))
+contract(f"{CR}::PythonCryptoEndpoint.send_cell", "send_cell.does-not-refresh-liveness",
+         vars={"hc1": HOP(), "self": CEP, "cell": CELL(), "cid0": EXPR("cell.circuit_id"), "target": ADDRESS},
+         requires=["len(cell.message) > 0",
+                   # relay entries come in pairs (both directions of one relayed circuit)
+                   "cid0 not in self.relays or self.relays[cid0].circuit_id in self.relays"],
+         call="self.send_cell(target, cell)", raises=[],
+         ensures=["cid0 not in self.circuits or self.circuits[cid0].last_activity == old(self.circuits[cid0].last_activity)",
+                  "cid0 not in self.relays or self.relays[cid0].last_activity == old(self.relays[cid0].last_activity)",
+                  "cid0 not in self.exit_sockets or self.exit_sockets[cid0].last_activity == old(self.exit_sockets[cid0].last_activity)"],
+         note="last_activity is a receive clock: sending over an entry leaves it unchanged")
